@@ -294,6 +294,249 @@ def run_refcell(ctx, rep):
                               control=is_control)
 
 
+
+# ---------------------------------------------------------------------------------------------
+# R9.8  item-discarding iterator adaptors over results that can carry a storage error
+
+ITER = 'core::iter::traits::iterator::Iterator::'
+DITER = 'core::iter::traits::double_ended::DoubleEndedIterator::'
+# adaptor -> value of the by-reference predicate for which the adaptor DROPS the item it was looking at
+PREDICATE_DISCARDERS = {ITER + 'find': False, DITER + 'rfind': False, ITER + 'filter': False, ITER + 'take_while': False,
+                        ITER + 'skip_while': True}
+# adaptors that drop items without looking at them
+BLIND_DISCARDERS = tuple(ITER + n for n in ('nth', 'skip', 'step_by', 'last', 'count', 'max', 'min', 'max_by', 'min_by',
+                                            'max_by_key', 'min_by_key', 'advance_by')) + (DITER + 'nth_back', )
+KEEP_VARIANT = ('core::result::Result::as_ref', 'core::result::Result::as_mut', 'core::result::Result::as_deref',
+                'core::result::Result::as_deref_mut', 'core::result::Result::map', 'core::result::Result::and_then',
+                'core::result::Result::copied', 'core::result::Result::cloned', 'core::result::Result::and',
+                'core::result::Result::inspect', 'core::clone::Clone::clone', 'core::borrow::Borrow::borrow',
+                'core::convert::AsRef::as_ref')
+
+
+def _bool_const(fn, o):
+    from model import op_const
+    c = op_const(o)
+    if c is not None and c.get('val') in (0, 1):
+        return bool(c['val'])
+    return None
+
+
+def closure_value_on_err(facts, cf, depth=0):
+    """set of abstract return values ({True, False, 'unknown'}) of a predicate closure `|r: &Result<_, E>| -> bool` when
+    the item it is shown is an `Err`: a tiny abstract interpretation that knows the variant of everything derived from the
+    parameter and follows the control flow that this knowledge decides"""
+    ERR = ('res', 'Err')
+    results = set()
+    start_env = {2: ERR}
+    work = [(0, start_env, 0)]
+    seen = set()
+    while work:
+        b, env, steps = work.pop()
+        if steps > 200:
+            results.add('unknown')
+            continue
+        key = (b, tuple(sorted((k, str(v)) for k, v in env.items())))
+        if key in seen:
+            continue
+        seen.add(key)
+        env = dict(env)
+        blk = cf.blocks[b]
+
+        def val_of_place(pl):
+            v = env.get(pl['l'])
+            if v == ERR and all(e == {'deref': 1} or 'deref' in e for e in pl['p']):
+                return ERR
+            if not pl['p']:
+                return v
+            return None
+
+        def val_of_operand(o):
+            bc = _bool_const(cf, o)
+            pl = op_place(o)
+            if pl is not None:
+                return val_of_place(pl)
+            if bc is not None:
+                return ('bool', bc)
+            return None
+
+        for s in blk['stmts']:
+            if s['k'] != 'assign' or s['lhs']['p']:
+                if s['k'] == 'assign':
+                    env.pop(s['lhs']['l'], None)
+                continue
+            l = s['lhs']['l']
+            rv = s['rv']
+            v = None
+            if rv['k'] in ('use', 'cast'):
+                v = val_of_operand(rv['a'])
+            elif rv['k'] in ('ref', 'rawptr'):
+                v = val_of_place(rv['p'])
+            elif rv['k'] == 'discr':
+                pv = val_of_place(rv['p'])
+                if pv == ERR:
+                    v = ('int', 1)
+                elif pv == ('opt', 'None'):
+                    v = ('int', 0)
+                elif pv == ('opt', 'Some'):
+                    v = ('int', 1)
+            elif rv['k'] == 'unop' and rv.get('op') == 'Not':
+                pv = val_of_operand(rv['a'])
+                if pv and pv[0] == 'bool':
+                    v = ('bool', not pv[1])
+            if v is None:
+                env.pop(l, None)
+            else:
+                env[l] = v
+        t = blk['term']
+        k = t['k']
+        if k == 'return':
+            r = env.get(0)
+            results.add(r[1] if r and r[0] == 'bool' else 'unknown')
+        elif k in ('goto', 'drop', 'assert'):
+            work.append((t['ret'], env, steps + 1))
+        elif k == 'switch':
+            dv = val_of_operand(t['discr'])
+            if dv is not None and dv[0] in ('int', 'bool'):
+                x = int(dv[1])
+                tgt = next((tg for vv, tg in t['targets'] if vv == x), t['otherwise'])
+                work.append((tgt, env, steps + 1))
+            else:
+                for _, tg in t['targets']:
+                    work.append((tg, env, steps + 1))
+                work.append((t['otherwise'], env, steps + 1))
+        elif k == 'call':
+            callee = t.get('callee') or ''
+            av = [val_of_operand(a) for a in t['args']]
+            v = None
+            a0 = av[0] if av else None
+            short = callee.rsplit('::', 1)[-1]
+            if a0 == ERR:
+                if callee in KEEP_VARIANT:
+                    v = ERR
+                elif callee == 'core::result::Result::is_err':
+                    v = ('bool', True)
+                elif callee in ('core::result::Result::is_ok', 'core::result::Result::is_ok_and'):
+                    v = ('bool', False)
+                elif callee in ('core::result::Result::map_or', 'core::result::Result::unwrap_or') and len(av) >= 2:
+                    v = av[1] if av[1] and av[1][0] == 'bool' else None
+                elif callee == 'core::result::Result::ok':
+                    v = ('opt', 'None')
+                elif callee == 'core::result::Result::err':
+                    v = ('opt', 'Some')
+            elif a0 and a0[0] == 'opt':
+                if callee == 'core::option::Option::is_some':
+                    v = ('bool', a0[1] == 'Some')
+                elif callee == 'core::option::Option::is_none':
+                    v = ('bool', a0[1] == 'None')
+                elif callee in ('core::option::Option::map_or', 'core::option::Option::unwrap_or') and a0[1] == 'None' \
+                        and len(av) >= 2:
+                    v = av[1] if av[1] and av[1][0] == 'bool' else None
+                elif callee in ('core::option::Option::as_ref', 'core::option::Option::map', 'core::option::Option::and_then') \
+                        and a0[1] == 'None':
+                    v = a0
+            if not t['dest']['p']:
+                if v is None:
+                    env.pop(t['dest']['l'], None)
+                else:
+                    env[t['dest']['l']] = v
+            if t.get('ret') is not None:
+                work.append((t['ret'], env, steps + 1))
+    return results or {'unknown'}
+
+
+def dev_iterator_types(facts):
+    """paths of fatfs types whose Iterator::next yields results that can carry a storage error"""
+    out = set()
+    for name, fn in facts.fns.items():
+        if name.endswith(' as core::iter::traits::iterator::Iterator>::next') and contains_dev_result(fn.types, fn.locals[0]['ty']):
+            st = getattr(fn, 'self_ty', None)
+            if st:
+                out.add(st.split('<')[0])
+    return out
+
+
+def run_discarding_adaptors(ctx, rep):
+    """R9.8: an iterator adaptor that drops items (`find`, `filter`, `skip_while`, `take_while`, `nth`, `skip`, `last`,
+    `count`, ...) applied to an iterator whose items can be `Err(storage error)`: the predicate must keep an `Err` item
+    (so that the caller still sees it); an adaptor that drops items blindly is a violation."""
+    facts = ctx.facts
+    dev_iters = dev_iterator_types(facts)
+    n = und = 0
+    for fn in scope_fns(facts):
+        is_control = fn.crate == 'vf_witness'
+        if fn.is_drop_impl() or (is_control and '_r9_8' not in fn.name):
+            continue
+        for b, t in fn.calls():
+            callee = t.get('callee') or ''
+            if callee not in PREDICATE_DISCARDERS and callee not in BLIND_DISCARDERS:
+                continue
+            if not t['args']:
+                continue
+            rp = op_place(t['args'][0])
+            rty = fn.local_ty(rp['l']) if rp is not None else None
+            from model import ty_contains
+            recv_dev = rp is not None and ty_contains(fn.types, fn.locals[rp['l']]['ty'],
+                                                      lambda x: x['k'] == 'adt' and x['path'].split('<')[0] in dev_iters)
+            if callee in BLIND_DISCARDERS:
+                if not recv_dev:
+                    continue
+                n += 1
+                rep.oblige('R9.8', '%s|bb%d' % (fn.name, b), ok=False, nontrivial=True)
+                rep.violation('R9.8', vkey('R9.8', fn.name, callee, t['span']['snip']), fn.loc(t['span']),
+                              '%s drops items of an iterator whose items can be Err(storage error) without looking at them '
+                              '(%s): a failed read is discarded instead of being returned as Error::Io' %
+                              (fn.name, callee.rsplit('::', 1)[-1]), control=is_control)
+                continue
+            # predicate adaptor: the closure's parameter tells the item type
+            cdef = None
+            if len(t['args']) > 1:
+                cp = op_place(t['args'][1])
+                if cp is not None:
+                    for bi in fn.reachable():
+                        for s in fn.blocks[bi]['stmts']:
+                            if s['k'] == 'assign' and s['lhs']['l'] == cp['l'] and not s['lhs']['p'] and \
+                                    s['rv']['k'] == 'agg' and s['rv'].get('ak') == 'closure':
+                                cdef = s['rv']['def']
+            cf = facts.fns.get(cdef) if cdef else None
+            item_dev = None
+            if cf is not None and cf.argc >= 2:
+                pt = cf.local_ty(2)
+                for _ in range(3):
+                    if pt is not None and pt.get('k') in ('ref', 'ptr'):
+                        ix = pt['to']
+                        pt = cf.types[ix]
+                        item_dev = contains_dev_result(cf.types, ix)
+            if item_dev is None:
+                item_dev = recv_dev and None
+            if item_dev is False:
+                continue
+            if item_dev is None:
+                if recv_dev:
+                    und += 1
+                continue
+            n += 1
+            vals = closure_value_on_err(facts, cf)
+            dropped_on = PREDICATE_DISCARDERS[callee]
+            if vals == {not dropped_on}:
+                rep.oblige('R9.8', '%s|bb%d' % (fn.name, b), ok=True, nontrivial=True,
+                           sample={'fn': fn.name, 'at': fn.loc(t['span']), 'adaptor': callee.rsplit('::', 1)[-1],
+                                   'verdict': 'the predicate returns %s for an Err item: the item is kept' % (not dropped_on)})
+            elif dropped_on in vals:
+                rep.oblige('R9.8', '%s|bb%d' % (fn.name, b), ok=False, nontrivial=True)
+                rep.violation('R9.8', vkey('R9.8', fn.name, callee, t['span']['snip']), fn.loc(t['span']),
+                              'the predicate given to `%s` in %s returns %s for an item that is Err(storage error): the adaptor '
+                              'drops the item and the failed read is never returned as Error::Io' %
+                              (callee.rsplit('::', 1)[-1], fn.name, str(dropped_on).lower()),
+                              ['closure: %s' % cdef], control=is_control)
+            else:
+                und += 1
+    rep.counts['R9.8'] = rep.counts.get('R9.8', 0) + n
+    rep.counts['R9.8.undecided'] = und
+    if und:
+        rep.notes.append('R9.8: %d discarding adaptors over device-capable results could not be decided (predicate not understood)' % und)
+    rep.oblige('R9.8.scan', 'fatfs-calls', ok=True)
+
+
 _run_fate = run
 
 
@@ -301,3 +544,4 @@ def run(ctx, rep):
     _run_fate(ctx, rep)
     run_refcell(ctx, rep)
     run_indirect_swallow(ctx, rep)
+    run_discarding_adaptors(ctx, rep)
